@@ -148,7 +148,11 @@ def soakBound (rules : List Rule) (g : Int) (G : Nat) (b : UInt32) : Int :=
 
 inductive Op
   | load (rs : List (String × UInt32))
-  | loadres (res : String) (ths : List UInt32)     -- `LoadRulesOfResource` (`[]` = `ClearRulesOfResource`)
+  | loadres (scratch : Bool) (res : String) (ths : List UInt32)
+      -- `LoadRulesOfResource` (`[]` = `ClearRulesOfResource`); `scratch`: through the caller's one reused slice (`sloadres`)
+  | poke (res : String) (idx : Nat) (thr : UInt32) -- the caller edits `Threshold` of a loaded (valid) rule object in place
+  | getrules (res : String)                        -- `GetRulesOfResource`
+  | getall                                         -- `GetRules`
   | entry (id : Nat) (res : String) (b : UInt32)
   | exit (id : Nat)
   | conc (res : String)
@@ -163,12 +167,23 @@ inductive Out
   | dup
   | val (g : Int)
   | sched (th : List Pc) (mx : Int)
+  | rules (rs : List Rule)
+  | allrules (rs : List (String × Rule))
   | soak (bound : Int)       -- everything has exited again (state unchanged); the gauge never exceeded `bound`
 deriving Repr, DecidableEq
 
 /-- `LoadRules`: valid rules in load order, tagged with their position -/
 def loadRules (rs : List (String × UInt32)) : List (String × Rule) :=
   rs.zipIdx.filterMap fun p => if p.1.2 ≠ 0 ∧ p.1.1 ≠ "" then some (p.1.1, { idx := p.2, thr := p.1.2 }) else Option.none
+
+/-- the rule manager keeps the caller's `*Rule` objects (only the slices are its own): an in-place edit of the threshold of a
+    loaded rule object is seen by `checkPass` (as the code has it; the harness only edits valid rules, to non-zero values) -/
+def pokeRules (rules : List (String × Rule)) (res : String) (idx : Nat) (thr : UInt32) : List (String × Rule) :=
+  rules.map fun p => if p.1 = res ∧ p.2.idx = idx then (p.1, { p.2 with thr := thr }) else p
+
+/-- the same edit seen through `currentRules`: only valid rule objects are ever edited -/
+def pokeValid (raw : List (String × Rule)) (res : String) (idx : Nat) (thr : UInt32) : List (String × Rule) :=
+  raw.map fun p => if p.1 = res ∧ p.2.idx = idx ∧ p.2.thr ≠ 0 then (p.1, { p.2 with thr := thr }) else p
 
 def rulesOf (rules : List (String × Rule)) (res : String) : List Rule :=
   (rules.filter fun p => p.1 = res).map (·.2)
@@ -178,8 +193,56 @@ def rulesOf (rules : List (String × Rule)) (res : String) : List Rule :=
 def loadResRules (rules : List (String × Rule)) (res : String) (ths : List UInt32) : List (String × Rule) :=
   (rules.filter fun p => p.1 ≠ res) ++ loadRules (ths.map fun t => (res, t))
 
+/-! ### `currentRules` and the caller's slice (as the code has it: known finding `loadres-raw-slice-alias`)
+
+`LoadRulesOfResource` stores the **caller's slice** in `currentRules[res]` (`currentRules[res] = rawResRules`), the list its
+"unchanged" shortcut compares the next load with.  A caller that reuses one slice for successive calls therefore makes the shortcut
+compare the new rules with themselves: a reload of `res` with the same number of rules through the same slice is **ignored**.
+`LoadRules` regroups into fresh slices and is not affected.  The harness' `sloadres` reuses one slice (and overwrites its elements with
+unrelated rules after each call; `sload` uses a slice of its own), so the model tracks
+
+* `raw`   — the content of `currentRules` for the resources whose entry is not the caller's slice (unfiltered, with positions);
+* `ali`   — for the others: the length of the slice header stored (`currentRules[res]` is the first `k` elements of the caller's slice,
+  which hold unrelated rules between calls and the first `k` *new* rules during the next `sloadres`). -/
+
+def rawRules (rs : List (String × UInt32)) : List (String × Rule) :=
+  rs.zipIdx.map fun p => (p.1.1, { idx := p.2, thr := p.1.2 })
+
+def aliasOf (alias : List (String × Nat)) (res : String) : Option Nat := (alias.find? fun p => p.1 = res).map (·.2)
+
+structure RM where
+  rules : List (String × Rule)
+  raw   : List (String × Rule)
+  ali : List (String × Nat)
+
+/-- `LoadRulesOfResource(res, rules)` as the code has it -/
+def rmLoadRes (m : RM) (scratch : Bool) (res : String) (ths : List UInt32) : RM :=
+  let store (al : List (String × Nat)) : RM :=
+    { rules := loadResRules m.rules res ths,
+      raw := (m.raw.filter fun p => p.1 ≠ res) ++ rawRules (ths.map fun t => (res, t)),
+      ali := al }
+  let noAlias := m.ali.filter fun p => p.1 ≠ res
+  if ths.isEmpty then store noAlias                              -- clear branch
+  else if !scratch then store noAlias                            -- a fresh caller slice, never touched again
+  else match aliasOf m.ali res with
+    | some k => if k = ths.length then m                         -- compared with itself: "unchanged", the load is ignored
+                else store ((res, ths.length) :: noAlias)
+    | none =>
+      if rulesOf m.raw res = (rawRules (ths.map fun t => (res, t))).map (·.2) then m    -- genuinely unchanged: the old slice stays
+      else store ((res, ths.length) :: noAlias)
+
+/-- does this `LoadRulesOfResource` call take effect (`false`: the "unchanged" shortcut fires) -/
+def rmStores (m : RM) (scratch : Bool) (res : String) (ths : List UInt32) : Bool :=
+  if ths.isEmpty then true
+  else if !scratch then true
+  else match aliasOf m.ali res with
+    | some k => !(k = ths.length)
+    | none => !(rulesOf m.raw res = (rawRules (ths.map fun t => (res, t))).map (·.2))
+
 structure St where
   rules : List (String × Rule) := []
+  raw   : List (String × Rule) := []        -- `currentRules` (see above)
+  ali : List (String × Nat) := []
   gauge : String → Int := fun _ => 0        -- `ResourceNode.concurrency` (0 for a node not created yet)
   live  : List (Nat × String) := []         -- handles of passed entries not exited yet: (id, resource)
 
@@ -192,8 +255,14 @@ def schedHandles (id0 : Nat) (res : String) (th : List Pc) : List (Nat × String
   (th.zipIdx.filter fun p => p.1 = .inflight).map fun p => (id0 + p.2, res)
 
 def step (s : St) : Op → St × Out
-  | .load rs => ({ s with rules := loadRules rs }, .none)
-  | .loadres res ths => ({ s with rules := loadResRules s.rules res ths }, .none)
+  | .load rs => ({ s with rules := loadRules rs, raw := rawRules rs, ali := [] }, .none)
+  | .loadres scratch res ths =>
+    let m := rmLoadRes { rules := s.rules, raw := s.raw, ali := s.ali } scratch res ths
+    ({ s with rules := m.rules, raw := m.raw, ali := m.ali }, .none)
+  | .poke res idx thr =>
+    ({ s with rules := pokeRules s.rules res idx thr, raw := pokeValid s.raw res idx thr }, .none)
+  | .getrules res => (s, .rules (rulesOf s.rules res))
+  | .getall => (s, .allrules s.rules)
   | .entry id res b =>
     if isLive s.live id then (s, .dup) else
     match checkPass (rulesOf s.rules res) (s.gauge res) b with
@@ -223,13 +292,23 @@ def run (s : St) : List Op → St × List Out
 
 structure SpecSt where
   rules : List (String × Rule) := []
+  raw   : List (String × Rule) := []
+  ali : List (String × Nat) := []
+  ideal : List (String × Rule) := []        -- what the latest loads say (every load takes effect): the claim of the property
   live  : List (Nat × String) := []
 
 def inflight (live : List (Nat × String)) (res : String) : Nat := live.countP (·.2 = res)
 
 def specStep (s : SpecSt) : Op → SpecSt × Out
-  | .load rs => ({ s with rules := loadRules rs }, .none)
-  | .loadres res ths => ({ s with rules := loadResRules s.rules res ths }, .none)
+  | .load rs => ({ s with rules := loadRules rs, raw := rawRules rs, ali := [], ideal := loadRules rs }, .none)
+  | .loadres scratch res ths =>
+    let m := rmLoadRes { rules := s.rules, raw := s.raw, ali := s.ali } scratch res ths
+    ({ s with rules := m.rules, raw := m.raw, ali := m.ali, ideal := loadResRules s.ideal res ths }, .none)
+  | .poke res idx thr =>
+    ({ s with rules := pokeRules s.rules res idx thr, raw := pokeValid s.raw res idx thr,
+              ideal := pokeRules s.ideal res idx thr }, .none)
+  | .getrules res => (s, .rules (rulesOf s.rules res))
+  | .getall => (s, .allrules s.rules)
   | .entry id res b =>
     if isLive s.live id then (s, .dup) else
     match specCheck (rulesOf s.rules res) (inflight s.live res) b with
@@ -243,6 +322,14 @@ def specStep (s : SpecSt) : Op → SpecSt × Out
     let c := specRunDrain (rulesOf s.rules res) bs { base := n, mx := n, th := List.replicate bs.length .idle } sch
     ({ s with live := schedHandles id0 res c.th ++ s.live }, .sched c.th c.mx)
   | .soak res G _ b => (s, .soak (soakBound (rulesOf s.rules res) (inflight s.live res : Nat) G b))
+
+/-- every `LoadRulesOfResource` call of the history takes effect (evaluated on the reference's own rule-manager state) -/
+def storesAlong (s : SpecSt) : List Op → Bool
+  | [] => true
+  | o :: r =>
+    (match o with
+     | .loadres sc res ths => rmStores { rules := s.rules, raw := s.raw, ali := s.ali } sc res ths
+     | _ => true) && storesAlong (specStep s o).1 r
 
 def specRun (s : SpecSt) : List Op → SpecSt × List Out
   | [] => (s, [])
